@@ -94,11 +94,32 @@ CURATED = [
 ]
 
 
+def _costs():
+    import json, os
+    try:
+        return json.load(open(os.path.join(os.path.dirname(os.path.abspath(__file__)), 'shape_costs.json')))
+    except Exception:
+        return {}
+
+
+QUICK_CPU_CAP = {'C01': 600.0, 'C03': 300.0, 'C05': 600.0, 'C18': 250.0, 'C02': 90.0, 'C19': 90.0, 'C07': 40.0, 'C10': 60.0}
+# CPU seconds per shape measured with the C19 harness (lib/shape_costs.json); harnesses that do less per path afford more
+
+
 def quick_list(prop, seed):
-    """per-property selection of the curated list, ordered by cost"""
-    rnd = random.Random(seed * 7919 + sum(map(ord, prop)))
-    base = list(CURATED)
-    return base
+    """quick tier: the curated shapes whose measured exploration cost is below the cap (shapes with several independent
+    ranges fork on the relative order of all end points and are left to the thorough tier; each rewrite rule they
+    exercise is also exercised by a cheaper shape using singletons)"""
+    costs = _costs()
+    out = []
+    for sh in CURATED:
+        c = costs.get(show(sh))
+        if c is None:
+            if nsym(sh) <= 2:
+                out.append(sh)
+        elif c <= QUICK_CPU_CAP.get(prop, 40.0):
+            out.append(sh)
+    return out
 
 
 def depth2(atoms=('none', 'eps', 'allchar', R, C), unary=UNARY, binary=BINARY):
@@ -178,7 +199,13 @@ PAIRS_CURATED = [
 
 def pairs(tier, seed, cap):
     if tier == 'quick':
-        return list(PAIRS_CURATED)
+        import json, os
+        try:
+            pc = json.load(open(os.path.join(os.path.dirname(os.path.abspath(__file__)), 'pair_costs.json')))
+        except Exception:
+            pc = {}
+        # quick: the curated pairs whose measured cost (CPU s, both lengths, with the union check) is below the cap
+        return [(r, s2) for (r, s2) in PAIRS_CURATED if pc.get('%s <= %s' % (show(r), show(s2)), 0) <= 320]
     rnd = random.Random(seed * 31337 + 16)
     pool = []
     for n1 in (1, 2, 3):
